@@ -1,5 +1,6 @@
 import MaestroVerif.Model.Expand
 import MaestroVerif.Lemmas.SubstLemmas
+import MaestroVerif.Lemmas.SubstTokens
 
 /-!
 # C09 — Every defined token is substituted with the right value, and only those
@@ -8,9 +9,10 @@ import MaestroVerif.Lemmas.SubstLemmas
 (`Variable.substitute`, `apply_environment`, `Combination.apply`, the workspace
 tokens, `$(WORKSPACE)`); the whole pipeline is `Model/Expand.lean` and is compared
 text by text with the real one.  Theorems: the laws of one replacement pass.
-The statement "the three-stage pipeline equals one simultaneous substitution" is
-evaluated by the tokenizer-based monitor on the real texts; its Lean form for
-`$`-free literals is `C09_pass_is_simultaneous_partial` (see below when present).
+The statement "a sequence of passes equals one simultaneous substitution" is
+`C09_passes_simultaneous` for tokenised texts (`$`-free literals and values); on
+the real texts, including the cases outside that domain, it is evaluated by the
+tokenizer-based monitor.
 -/
 namespace MaestroVerif.C09
 open MaestroVerif.Subst
@@ -52,5 +54,49 @@ theorem C09_tokens_nonempty (a : Str) : tok a ≠ [] ∧ tokLabel a ≠ [] ∧ t
 /-! non-vacuity: a look-alike of a defined token is kept, the token itself is replaced -/
 example : replaceAll "echo $(PX) $(P) ${P} $(P.label)".toList (tok "P".toList) "7".toList =
     "echo $(PX) 7 ${P} $(P.label)".toList := by decide
+
+
+/-! ## the pipeline on tokenised texts -/
+
+/-- **A sequence of replacement passes is one simultaneous substitution.**  On a
+text made of `$`-free literals and `$(NAME)` tokens (names without `$` and `)`),
+running one `str.replace` pass per table entry — in any table order, for values
+that contain no `$` — gives exactly the text in which every token whose name is
+in the table is replaced by that name's value and every other token and every
+literal is left as it was. -/
+theorem C09_passes_simultaneous (t : Table) (segs : List Seg) (ht : TableOk t) (hc : Clean segs) :
+    passes t (render segs) = render (segs.map (Seg.substAll t)) :=
+  passes_simultaneous t segs ht hc
+
+/-- **… hence no defined token survives and nothing else changes**: in the
+result, a token is left only if its name is not in the table, and it is left
+unchanged. -/
+theorem C09_no_defined_token_survives (t : Table) (segs : List Seg) :
+    ∀ s, s ∈ segs.map (Seg.substAll t) → ∀ n, s = .tk n → n ∉ t.map (·.1) := by
+  intro s hs n hn
+  obtain ⟨x, _, hx⟩ := List.mem_map.mp hs
+  subst hn
+  cases x with
+  | lit l => simp [Seg.substAll] at hx
+  | tk m =>
+    simp only [Seg.substAll] at hx
+    cases hf : t.find? (·.1 = m) with
+    | some kv => simp [hf] at hx
+    | none =>
+      simp only [hf, Seg.tk.injEq] at hx
+      subst hx
+      intro hmem
+      obtain ⟨kv, hkv, hk⟩ := List.mem_map.mp hmem
+      have := List.find?_eq_none.mp hf kv hkv
+      simp [hk] at this
+
+/-- the premises are satisfiable, and the order of the passes does not matter -/
+example :
+    let segs := [Seg.lit "echo ".toList, .tk "P".toList, .lit " > ".toList, .tk "OUT".toList,
+                 .lit "/x ".toList, .tk "PX".toList]
+    passes [("P".toList, "7".toList), ("OUT".toList, "/w/run".toList)] (render segs) =
+      "echo 7 > /w/run/x $(PX)".toList ∧
+    passes [("OUT".toList, "/w/run".toList), ("P".toList, "7".toList)] (render segs) =
+      "echo 7 > /w/run/x $(PX)".toList := by decide +kernel
 
 end MaestroVerif.C09
